@@ -21,7 +21,9 @@ META = dict(
                "execution is judged by the same TLA+ laws. Small-scope exhaustion of the model plus sampled conformance "
                "of the code: fetch is graph/set-shaped, so small graphs exhibit all overlap classes.",
     level_note="Histories are built with BranchBuilder (real commits) in the source format; partially overlapping targets "
-               "are prepared by fetching the heads of the chosen closed subset first. Stacked targets are C08's. Trusted: "
+               "are prepared by fetching the heads of the chosen closed subset first. push / pull / sprout are used for revisions "
+               "whose left-hand history does not end in a ghost (a branch tip needs a revno), plain fetch for all. Stacked "
+               "targets are C08's. Trusted: "
                "bzrformats stream (de)serialisers and index code as executed, TLC, the JSON bridge. Signatures are opaque "
                "texts (no gpg).",
 )
@@ -211,7 +213,8 @@ def replay_jobs(sub, chunk):
 def pick_cases(hist, rng, per_hist, k):
     """Cases of one history for one configuration: all of them when they fit, else a seeded sample that always keeps
     non-trivial ones (rev not yet in the target) in the majority; the operation rotates over fetch / push / pull, sprout
-    for some empty targets; push / pull need a ghost-free mainline (moving a branch tip needs a revno)."""
+    for some empty targets; push / pull / sprout set a branch tip, which needs a left-hand history that does not end in a
+    ghost (revno; full-history branch formats walk it) - such revisions are fetched instead."""
     P = hist["P"]
     cases = sorted(hist["cases"], key=lambda c: (c["S"], c["rev"]))
     nontriv = [c for c in cases if c["rev"] not in c["S"]]
@@ -224,7 +227,7 @@ def pick_cases(hist, rng, per_hist, k):
         op = OPS[(j + k) % 3]
         if not c["S"] and (j + k) % 2 == 0:
             op = "sprout"
-        if op in ("push", "pull") and fc.mainline_has_ghost(P, c["rev"]):
+        if op != "fetch" and fc.mainline_has_ghost(P, c["rev"]):
             op = "fetch"
         out.append((c["S"], c["rev"], op, c["exp"]))
     return out
